@@ -1061,7 +1061,7 @@ func (x *Exec) structType(tkey string) *types.Struct {
 func (x *Exec) acquire(p *Path, own Owner, label, mode string) {
 	k := lockKey(own, label)
 	if _, held := p.locks[k]; held {
-		x.oblige(p, "lock", "no_double_lock", "false", []string{"C09"}, "lock "+label+" acquired while held")
+		x.oblige(p, "lock", "no_double_lock", "false", nil, "lock "+label+" acquired while held (self-deadlock)")
 	}
 	p.locks[k] = mode
 	for _, key := range x.guardedKeys(own.TKey, own.Field) {
